@@ -1,0 +1,37 @@
+//go:build verif
+// +build verif
+
+package raft
+
+import (
+	"math/rand"
+)
+
+// VerifSeedRand makes the randomized election timeouts a function of seed.
+func VerifSeedRand(seed int64) {
+	globalRand.mu.Lock()
+	globalRand.rand = rand.New(rand.NewSource(seed))
+	globalRand.mu.Unlock()
+}
+
+// VerifPeekState is a copy of the volatile state of a node, for invariants only.
+type VerifPeekState struct {
+	ID, Term, Vote, Lead          uint64
+	State                         StateType
+	Commit, Applied, First, Last  uint64
+	Voters, Learners              []uint64
+	IsLearner, PendingConf        bool
+}
+
+// VerifPeek reads the state of a node that is driven by a single goroutine.
+func VerifPeek(n Node) VerifPeekState {
+	nd := n.(*node)
+	r := nd.r
+	return VerifPeekState{
+		ID: r.id, Term: r.Term, Vote: r.Vote, Lead: r.lead, State: r.state,
+		Commit: r.raftLog.committed, Applied: r.raftLog.applied,
+		First: r.raftLog.firstIndex(), Last: r.raftLog.lastIndex(),
+		Voters: r.nodes(), Learners: r.learnerNodes(),
+		IsLearner: r.isLearner, PendingConf: r.pendingConf,
+	}
+}
